@@ -54,22 +54,18 @@ theorem shapeVolume_clean (clean : String → String) (v : Val) (h : shapeVolume
   | map vol => simp [cleanVolume, shapeVolume, lookup_insert_self]
   | _ => simp [shapeVolume] at h
 
-theorem shapeNamespace_congr {s s' : KVs} {ns : String} (h : lookup ns s' = lookup ns s) :
-    shapeNamespace s' ns = shapeNamespace s ns := by
-  simp [shapeNamespace, h]
-
 theorem shapeService_step (clean : String → String) (env : Env) (x : Val) (h : shapeService x = true) :
     shapeService (normServiceV clean env (nnServiceV x)) = true := by
   cases x with
   | map s =>
     simp only [shapeService, Bool.and_eq_true] at h
-    obtain ⟨⟨⟨⟨⟨hb, hd⟩, hl⟩, hns⟩, hv⟩, hvf⟩ := h
+    obtain ⟨⟨⟨⟨hb, hd⟩, hl⟩, hv⟩, hvf⟩ := h
     simp only [nnServiceV, normServiceV, shapeService, Bool.and_eq_true]
     have fr : ∀ k, k ≠ "networks" → k ≠ "pull_policy" → k ≠ "build" → k ≠ "environment" → k ≠ "volumes" →
         k ≠ "depends_on" → lookup k (normService clean env (nnService s)) = lookup k s := by
       intro k h0 h1 h2 h3 h4 h5
       rw [lookup_normService_other clean env h1 h2 h3 h4 h5, lookup_nnService_ne h0]
-    refine ⟨⟨⟨⟨⟨?_, ?_⟩, ?_⟩, ?_⟩, ?_⟩, ?_⟩
+    refine ⟨⟨⟨⟨?_, ?_⟩, ?_⟩, ?_⟩, ?_⟩
     · -- build
       rw [lookup_normService_attr clean env (by decide), lookup_nnService_ne (by decide)]
       cases hbv : lookup "build" s with
@@ -81,15 +77,6 @@ theorem shapeService_step (clean : String → String) (env : Env) (x : Val) (h :
       | nil => simp only; rw [lookup_nnService_ne (by decide)]; exact hd
       | cons e r => rfl
     · rw [fr "links" (by decide) (by decide) (by decide) (by decide) (by decide) (by decide)]; exact hl
-    · -- namespaces
-      simp only [namespaces, List.all_cons, List.all_nil, Bool.and_true, Bool.and_eq_true] at hns ⊢
-      obtain ⟨h1, h2, h3, h4, h5⟩ := hns
-      refine ⟨?_, ?_, ?_, ?_, ?_⟩
-      · rw [shapeNamespace_congr (fr "network_mode" (by decide) (by decide) (by decide) (by decide) (by decide) (by decide))]; exact h1
-      · rw [shapeNamespace_congr (fr "ipc" (by decide) (by decide) (by decide) (by decide) (by decide) (by decide))]; exact h2
-      · rw [shapeNamespace_congr (fr "pid" (by decide) (by decide) (by decide) (by decide) (by decide) (by decide))]; exact h3
-      · rw [shapeNamespace_congr (fr "uts" (by decide) (by decide) (by decide) (by decide) (by decide) (by decide))]; exact h4
-      · rw [shapeNamespace_congr (fr "cgroup" (by decide) (by decide) (by decide) (by decide) (by decide) (by decide))]; exact h5
     · -- volumes
       rw [lookup_normService_attr clean env (by decide), lookup_nnService_ne (by decide)]
       cases hvv : lookup "volumes" s with
